@@ -15,7 +15,7 @@
    A run plan ([rnode]) is a layered graph whose lambdas / tool calls carry the number of
    executions that will still ask for an interrupt, and whose completed nodes are marked
    [RDone].  [proj] gives the graph (Model/Callbacks.v [gnode]) the next run executes,
-   [resume_stages] the plan after an interrupted run, [run_seq] the whole sequence of runs.
+   [resume_stages] the plan after an interrupted run, [run_seqf] the whole sequence of runs.
    Every run of the sequence is a [graph_prog] of Model/CallbacksSched.v, so everything proved
    there for all graphs and all schedules holds for every run of every sequence.
 
@@ -35,21 +35,26 @@ Import ListNotations.
    of its next executions ask for an interrupt *)
 Definition rcall := (ukey * info * N * bool * nat)%type.
 
+(* what is left of a completed node: its shape, as far as the validation of designated paths
+   looks at it (extractOption: a path may continue below a node only if the node is a graph,
+   and the rest of the path is validated by that graph) *)
+Inductive dshape := DLeaf | DSub (children : list (N * dshape)).
+
 Inductive rnode :=
 | RLambda (uid : ukey) (key : N) (inf : info) (natives : N) (fails : bool) (intr : nat)
     (* the next [intr] executions return InterruptAndRerun; after that it fails or not *)
 | RPass (uid : ukey) (key : N)
-| RDone (uid : ukey) (key : N)       (* completed in an earlier run of the sequence *)
+| RDone (uid : ukey) (key : N) (sh : dshape)      (* completed in an earlier run of the sequence *)
 | RSub (uid : ukey) (key : N) (inf : info) (stages : list (list rnode))
 | RTools (uid : ukey) (key : N) (inf : info) (calls : list rcall).
 
 Definition rnode_key (n : rnode) : N :=
   match n with
-  | RLambda _ k _ _ _ _ => k | RPass _ k => k | RDone _ k => k | RSub _ k _ _ => k | RTools _ k _ _ => k
+  | RLambda _ k _ _ _ _ => k | RPass _ k => k | RDone _ k _ => k | RSub _ k _ _ => k | RTools _ k _ _ => k
   end.
 Definition rnode_uid (n : rnode) : ukey :=
   match n with
-  | RLambda u _ _ _ _ _ => u | RPass u _ => u | RDone u _ => u | RSub u _ _ _ => u | RTools u _ _ _ => u
+  | RLambda u _ _ _ _ _ => u | RPass u _ => u | RDone u _ _ => u | RSub u _ _ _ => u | RTools u _ _ _ => u
   end.
 
 Definition call_intr (c : rcall) : bool := match snd c with O => false | S _ => true end.
@@ -63,17 +68,39 @@ Fixpoint proj (n : rnode) : list gnode :=
   | RLambda uid key inf natives fails intr =>
       [GLambda uid key inf natives (match intr with O => fails | S _ => true end)]
   | RPass uid key => [GPass uid key]
-  | RDone uid key => []
+  | RDone uid key sh => []
   | RSub uid key inf stages => [GSub uid key inf (map (flat_map proj) stages)]
   | RTools uid key inf calls => [GTools uid key inf (map proj_call calls)]
   end.
 Definition proj_stages (stages : list (list rnode)) : list (list gnode) := map (flat_map proj) stages.
 
-(* the designated path p leads to a node that is still to be executed (or to no node at all:
-   then it stays, and is rejected as before) *)
+Fixpoint shape_of (n : rnode) : dshape :=
+  match n with
+  | RSub _ _ _ stages => DSub (List.concat (map (map (fun m => (rnode_key m, shape_of m))) stages))
+  | RDone _ _ sh => sh
+  | _ => DLeaf
+  end.
+
+(* the rest [tl] of a designated path is accepted below a node of this shape *)
+Fixpoint shape_valid (sh : dshape) (tl : list N) {struct tl} : bool :=
+  match tl with
+  | [] => true
+  | k :: tl' =>
+      match sh with
+      | DLeaf => false
+      | DSub cs =>
+          match find (fun c : N * dshape => N.eqb (fst c) k) cs with
+          | None => false
+          | Some c => shape_valid (snd c) tl'
+          end
+      end
+  end.
+
+(* the designated path p leads to a node that is still to be executed (or to no node at all, or
+   not validly below a completed node: then it stays, and is rejected as before) *)
 Fixpoint path_live_node (n : rnode) (tl : list N) {struct n} : bool :=
   match n with
-  | RDone _ _ => false
+  | RDone _ _ sh => negb (shape_valid sh tl)
   | RSub _ _ _ stages =>
       match tl with
       | [] => true
@@ -139,7 +166,7 @@ Fixpoint node_outcome (opts : list copt) (n : rnode) {struct n} : outcome :=
   match n with
   | RLambda _ _ _ _ fails intr => match intr with S _ => OutIntr | O => if fails then OutFail else OutOk end
   | RPass _ _ => OutOk
-  | RDone _ _ => OutOk
+  | RDone _ _ _ => OutOk
   | RSub _ key _ stages =>
       let sopts := sub_opts key opts in
       if negb (graph_ok (map (flat_map proj) stages) sopts) then OutFail
@@ -153,7 +180,7 @@ Definition run_outcome (opts : list copt) (stages : list (list rnode)) : outcome
 
 (* ------------------------------------------------------------------ the plan after an interrupted run *)
 
-Definition done_of (n : rnode) : rnode := RDone (rnode_uid n) (rnode_key n).
+Definition done_of (n : rnode) : rnode := RDone (rnode_uid n) (rnode_key n) (shape_of n).
 
 Definition resume_call (c : rcall) : rcall :=
   let '(cu, cinf, natives, fails, intr) := c in (cu, cinf, natives, fails, pred intr).
@@ -174,8 +201,8 @@ Fixpoint resume_walk (os : list (list (rnode * outcome * rnode))) : list (list r
 Fixpoint resume_node (opts : list copt) (n : rnode) {struct n} : rnode :=
   match n with
   | RLambda uid key inf natives fails intr => RLambda uid key inf natives fails (pred intr)
-  | RPass uid key => RDone uid key
-  | RDone uid key => RDone uid key
+  | RPass uid key => RDone uid key DLeaf
+  | RDone uid key sh => RDone uid key sh
   | RSub uid key inf stages =>
       let sopts := sub_opts key opts in
       RSub uid key inf
@@ -186,31 +213,15 @@ Fixpoint resume_node (opts : list copt) (n : rnode) {struct n} : rnode :=
 Definition resume_stages (opts : list copt) (stages : list (list rnode)) : list (list rnode) :=
   resume_walk (map (map (fun m => (m, node_outcome opts m, resume_node opts m))) stages).
 
-(* the plans of a run and of the runs that resume it; [fuel] bounds the number of runs
-   (Proofs/CallbacksResume.v: S (total_intr stages) is enough, [plan_seq_complete]).  [opts]
-   are the call options as given by the caller (the same for every run). *)
-Fixpoint plan_seq (fuel : nat) (opts : list copt) (stages : list (list rnode)) : list (list (list rnode)) :=
-  match fuel with
-  | O => []
-  | S f =>
-      stages ::
-      (let lo := live_opts stages opts in
-       if is_intr (run_outcome lo stages) then plan_seq f opts (resume_stages lo stages) else [])
-  end.
-
 (* what a run with plan [stages] executes: the options that still matter and the graph *)
 Definition run_of (opts : list copt) (stages : list (list rnode)) : list copt * list (list gnode) :=
   (live_opts stages opts, proj_stages stages).
-Definition run_seq (fuel : nat) (opts : list copt) (stages : list (list rnode))
-  : list (list copt * list (list gnode)) :=
-  map (run_of opts) (plan_seq fuel opts stages).
-
 (* interrupts still to come *)
 Fixpoint node_intr (n : rnode) : nat :=
   match n with
   | RLambda _ _ _ _ _ intr => intr
   | RPass _ _ => 0
-  | RDone _ _ => 0
+  | RDone _ _ _ => 0
   | RSub _ _ _ stages =>
       list_sum (map (fun st => list_sum (map node_intr st)) stages)
   | RTools _ _ _ calls => list_sum (map (fun c : rcall => snd c) calls)
@@ -222,7 +233,7 @@ Fixpoint ruids (n : rnode) : list ukey :=
   match n with
   | RLambda uid _ _ _ _ _ => [uid]
   | RPass uid _ => [uid]
-  | RDone uid _ => [uid]
+  | RDone uid _ _ => [uid]
   | RSub uid _ _ stages => uid :: flat_map (flat_map ruids) stages
   | RTools uid _ _ calls => uid :: map (fun c : rcall => fst (fst (fst (fst c)))) calls
   end.
@@ -232,7 +243,8 @@ Definition rstages_uids (stages : list (list rnode)) : list ukey := flat_map (fl
 
 (* The handlers are given with the call: the run that resumes an interrupted run is served the
    options of ITS call, not those of the interrupted one (nothing about handlers is kept in the
-   checkpoint).  [os k] = the call options of the k-th run of the sequence. *)
+   checkpoint).  [os k] = the call options of the k-th run of the sequence.  [fuel] bounds the
+   number of runs (Proofs/CallbacksResume.v: S (total_intr stages) is enough, [plan_seqf_complete]). *)
 Fixpoint plan_seqf (fuel k : nat) (os : nat -> list copt) (stages : list (list rnode))
   : list (list copt * list (list rnode)) :=
   match fuel with
